@@ -146,15 +146,22 @@ def matvec_cases(rng, tier, stats):
         Rx = [1] + [rng.randint(1, 4) for _ in range(d - 1)] + [1]
         guess = rng.random() < 0.4
         seed = rng.randrange(1 << 30)
-        label = "fast_matvec/d%d%s" % (d, "/guess" if guess else "")
+        # complex operands (the DMRG product conjugates its interface tensors: every contraction has to follow the same convention), order >= 3
+        cplx = c % 3 == 2
+        if cplx and d < 3:
+            d = 3
+            N = [rng.randint(2, 4) for _ in range(d)]; M = [rng.randint(2, 4) for _ in range(d)]
+            RA = [1] + [rng.randint(2, 3) for _ in range(d - 1)] + [1]; Rx = [1] + [rng.randint(2, 3) for _ in range(d - 1)] + [1]
+        dt = tn.complex128 if cplx else tn.float64
+        label = "fast_matvec/d%d%s%s" % (d, "/guess" if guess else "", "/c128" if cplx else "")
         box = {}
 
-        def impl(d=d, N=N, M=M, eps=eps, RA=RA, Rx=Rx, guess=guess, seed=seed, box=box):
+        def impl(d=d, N=N, M=M, eps=eps, RA=RA, Rx=Rx, guess=guess, seed=seed, box=box, dt=dt):
             tn.manual_seed(seed); np.random.seed(seed % (2 ** 32))
-            A = torchtt.TT(rnd_cores(rng, [[RA[k], M[k], N[k], RA[k + 1]] for k in range(d)], tn.float64, False))
-            x = torchtt.TT(rnd_cores(rng, [[Rx[k], N[k], Rx[k + 1]] for k in range(d)], tn.float64, False))
+            A = torchtt.TT(rnd_cores(rng, [[RA[k], M[k], N[k], RA[k + 1]] for k in range(d)], dt, False))
+            x = torchtt.TT(rnd_cores(rng, [[Rx[k], N[k], Rx[k + 1]] for k in range(d)], dt, False))
             gr = [1] + [rng.randint(1, 4) for _ in range(d - 1)] + [1]
-            g = torchtt.TT(rnd_cores(rng, [[gr[k], M[k], gr[k + 1]] for k in range(d)], tn.float64, False)) if guess else None
+            g = torchtt.TT(rnd_cores(rng, [[gr[k], M[k], gr[k + 1]] for k in range(d)], dt, False)) if guess else None
             exact = dense_of(A).reshape(int(np.prod(M)), -1) @ dense_of(x).reshape(-1)
             nrm = float(tn.linalg.norm(exact))
             errs = {}
